@@ -204,6 +204,25 @@ theorem set_get_roundtrip_str (env : Env) (cf : Cf δ) (st : Store δ) {sect key
 example : cfGet exEnv (exCf true none) (cfSet exEnv (exCf true none) exSt [116, 119, 111] [115]
     [104, 105, 32, 61]).1 [116, 119, 111] [115] = some [104, 105, 32, 61] := by decide +kernel
 
+/-- **setting a key from its own value**: `cf_set(k, cf_get(k) + off)` — in C the argument points
+    into the string being replaced (`cf_get_str` returns the stored pointer) — leaves exactly the
+    suffix of the old value, as for any other argument (the setter copies before it frees; the
+    harness op `setself` replays this with the library's own pointer) -/
+theorem set_from_own_value (env : Env) (cf : Cf δ) (st : Store δ) {sect key : Bytes} {s : Sect δ}
+    {k : Key} {i : Nat} (hr : Reaches cf sect key s k i) (hs : k.setter = some .str)
+    (hg : k.getter = some .str) (hro : k.readOnly = false) (hnr : (k.noReload && cf.loaded) = false)
+    {loc : Loc} (hd : getDest (sectBase cf s sect) k = some loc) (old : Bytes)
+    (_hold : cfGet env cf st sect key = some old) (off : Nat) :
+    (cfSet env cf st sect key (old.drop off)).2 = true ∧
+    cfGet env cf (cfSet env cf st sect key (old.drop off)).1 sect key = some (old.drop off) :=
+  set_get_roundtrip_str env cf st hr hs hg hro hnr hd (old.drop off)
+
+example :
+    let st1 := (cfSet exEnv (exCf false none) exSt [116, 119, 111] [115] [104, 101, 108, 108, 111]).1
+    (cfGet exEnv (exCf false none) st1 [116, 119, 111] [115]).map (fun old =>
+      cfGet exEnv (exCf false none) (cfSet exEnv (exCf false none) st1 [116, 119, 111] [115] (old.drop 2)).1
+        [116, 119, 111] [115]) = some (some [108, 108, 111]) := by decide +kernel
+
 /-- **round trip, filename**: no tilde = string; `~…` is `$HOME` / the passwd directory (the
     environment is the parameter `env`) followed by the rest of the value -/
 theorem set_filename (env : Env) (v : Bytes) :
